@@ -313,6 +313,18 @@ impl Drive {
             let r = gsub.closure_glyphs(set);
             self.note(r.map(|s| s.len()).map_err(|e| format!("{e:?}")));
         }
+        if let Ok(colr) = f.colr() {
+            // the closure helpers the subsetter relies on (hand-written walks over the paint graph and the layer records)
+            let mut glyphs: IntSet<GlyphId> = IntSet::empty();
+            glyphs.insert_range(GlyphId::new(0)..=GlyphId::new(n.min(4000)));
+            let (mut layers, mut palettes, mut vars) = (IntSet::<u32>::empty(), IntSet::<u16>::empty(), IntSet::<u32>::empty());
+            let mut g1 = glyphs.clone();
+            colr.v1_closure(&mut g1, &mut layers, &mut palettes, &mut vars);
+            let mut g0: IntSet<GlyphId> = IntSet::empty();
+            colr.v0_closure_glyphs(&g1, &mut g0);
+            colr.v0_closure_palette_indices(&g0, &mut palettes);
+            self.note((g1.len(), g0.len(), layers.len(), palettes.len(), vars.len()));
+        }
         if let Ok(cmap) = f.cmap() {
             let mut uni: IntSet<u32> = IntSet::empty();
             uni.insert_range(0x20..=0x2000);
